@@ -155,10 +155,16 @@ def judge(run, files, par=None):
     else:
         run.viol = judged + viol_end
         run.notes.append("tree without hook H1: only the end-state forms were evaluated")
-    if notes:
+    drift = [v for v in notes if v.get("guard") == "Note_C02_Counts"]
+    nokey = [v for v in notes if v.get("guard") == "Note_C02_TargetLacksKey"]
+    if drift:
         run.notes.append("MODEL-DRIFT (no verdict): in %d admissions the code's own count of the target domain lay outside the spec's "
-                         "[certain, possible] interval" % len(notes))
-    return judged, viol_end, notes, hooked
+                         "[certain, possible] interval" % len(drift))
+    if nokey:
+        run.notes.append("OBSERVATION outside the statement (no verdict): %d admissions of a pod with a required affinity term / DoNotSchedule "
+                         "constraint to a node that does not carry the topology key (the pod is in no domain; kube-scheduler would refuse the node)"
+                         % len(nokey))
+    return judged, viol_end, drift, hooked
 
 
 OPTS = [{"preference": pr, "workers": w} for pr in ("Respect", "Ignore") for w in (1, 2, 8)]
